@@ -16,6 +16,8 @@
 //!   "barrier": {"dir": d, "n": k, "timeout_ms": t}
 //!                                   create d/<pid>, wait until d holds >= k entries, else exit 99
 //!   "redirect": true                close stdout/stderr first (task detaches from its pipes)
+//!   "kill_self": true               end by SIGKILL instead of exiting (recorded with "signal": 9)
+//!   "spawn": [argv..]               run another program from inside the task, record rc and stderr
 //!   "chmod": [[path, mode]]         set the permission bits of other files first (a step of the
 //!                                   build that changes what a later command will find)
 //!   "rm_run_cmd": "<command>"       remove $MRHELPER_ROOT/<out>/run/*/<command> first (a "clean"
@@ -226,11 +228,45 @@ fn main() {
         std::thread::sleep(Duration::from_millis(ms));
     }
 
+    // "spawn": [argv..]: run another program from inside the task (with the task's environment) and
+    // record how it ended
+    let mut spawned = serde_json::Value::Null;
+    if let Some(argv) = script.get("spawn").and_then(|v| v.as_array()) {
+        let argv: Vec<String> = argv.iter().filter_map(|v| v.as_str().map(|s| s.to_string())).collect();
+        if !argv.is_empty() {
+            match std::process::Command::new(&argv[0]).args(&argv[1..]).stdin(std::process::Stdio::null()).output() {
+                Ok(o) => {
+                    let err = String::from_utf8_lossy(&o.stderr).to_string();
+                    let tail: String = err.chars().rev().take(300).collect::<String>().chars().rev().collect();
+                    spawned = serde_json::json!({"rc": o.status.code(), "stderr": tail});
+                }
+                Err(e) => spawned = serde_json::json!({"rc": null, "stderr": e.to_string()}),
+            }
+        }
+    }
+    if script.get("kill_self").and_then(|v| v.as_bool()).unwrap_or(false) {
+        // the process ends by a signal (as under the OOM killer or a CI time limit): no exit code
+        if let Some(d) = &trace_dir {
+            write_record(
+                d,
+                &format!("{}.end.json", pid),
+                &serde_json::json!({"pid": pid, "command": command, "target": target, "end_ns": mono_ns().to_string(), "signal": 9}),
+            );
+        }
+        extern "C" {
+            fn kill(pid: i32, sig: i32) -> i32;
+        }
+        unsafe {
+            kill(pid as i32, 9);
+        }
+        std::thread::sleep(Duration::from_secs(5));
+    }
     if let Some(d) = &trace_dir {
         write_record(
             d,
             &format!("{}.end.json", pid),
-            &serde_json::json!({"pid": pid, "command": command, "target": target, "end_ns": mono_ns().to_string(), "exit": exit_code}),
+            &serde_json::json!({"pid": pid, "command": command, "target": target, "end_ns": mono_ns().to_string(), "exit": exit_code,
+                "spawned": spawned}),
         );
     }
     std::process::exit(exit_code);
